@@ -5,7 +5,7 @@ HERE = os.path.dirname(os.path.dirname(os.path.abspath(__file__)))
 
 CHECKS = {
  "C07": dict(
-   technique="differential property-based testing: helper versus URL-level function on generated inputs (exhaustive bare-hostname panel + Hypothesis URLs with padding, control characters and redirect wrappers)",
+   technique="differential property-based testing: helper versus URL-level function on generated inputs (exhaustive bare-hostname panel + Hypothesis URLs with padding, control characters and redirect wrappers); plus a coverage-guided fuzzing campaign (atheris / libFuzzer, ural instrumented, the oracle inside the target): live in the thorough tier, its committed corpus replayed deterministically in the quick tier",
    text="get_normalized_hostname / get_fingerprinted_hostname against the host of normalize_url / fingerprint_url; normalize_hostname / fingerprint_hostname against the URL-level result for 'http://'+h over 21 label prefixes x 13 base hosts x options x paddings; the three *_lru_stems variants against lru_stems of the string result (minus the scheme stem when stripped) under their option sets x suffix_aware; get_hostname against the standard parser after ensuring a scheme.",
    note="Trusted base: vlib/urlref.split for reading the host of a result; urllib.parse.urlsplit for get_hostname. Inputs whose (resolved) URL cannot be parsed are skipped for the host/stem relations (C05 covers them).",
    design="§4 C07"),
@@ -15,7 +15,7 @@ CHECKS = {
    note="Trusted base: vlib/lists.ISO_3166 (checked equal to the ISO-3166-1 alpha-2 set), suffix panel verified by vlib/pslref.py against the bundled list, vlib/transforms.py.",
    design="§4 C06"),
  "C03": dict(
-   technique="metamorphic property-based testing on generated collision pairs (premise observed, then implication checked) and composition equalities on single URLs incl. an exhaustive token sweep",
+   technique="metamorphic property-based testing on generated collision pairs (premise observed, then implication checked) and composition equalities on single URLs incl. an exhaustive token sweep; plus a coverage-guided fuzzing campaign (atheris / libFuzzer, ural instrumented, the oracle inside the target): live in the thorough tier, its committed corpus replayed deterministically in the quick tier",
    text="Pairs (u, T(u)) from five families (spelling / documented-irrelevant transformations over dirty, normalize-oriented, clean and platform bases) under 12 option sets: whenever the canonical (resp. normalized) forms coincide the normalized forms (resp. fingerprints) must coincide; normalize_url(canonicalize_url(u)) == normalize_url(u) and the fingerprint analogue on grammar URLs and on every token in six positions of a carrier URL. The share of pairs whose premise holds is measured (about 70% canonical-equal, >99% normalized-equal).",
    note="Trusted base: the transformation catalogues (they only need to produce *candidate* collisions; the premise is always observed, never assumed).",
    design="§4 C03"),
@@ -25,47 +25,47 @@ CHECKS = {
    note="Trusted base: vlib/transforms.py and vlib/lists.py (frozen copies of the documentation). Composition rules (at most one transformation per kind, amp- glued only onto the site's own label) are listed in evidence.assumptions.",
    design="§4 C04"),
  "C05": dict(
-   technique="property-based testing with a component-wise reference oracle (reference parser + frozen irrelevance lists) over a normalize-oriented URL grammar x option sets, incl. single-option flip comparisons",
+   technique="property-based testing with a component-wise reference oracle (reference parser + frozen irrelevance lists) over a normalize-oriented URL grammar x option sets, incl. single-option flip comparisons; plus a coverage-guided fuzzing campaign (atheris / libFuzzer, ural instrumented, the oracle inside the target): live in the thorough tier, its committed corpus replayed deterministically in the quick tier",
    text="Generated URLs rich in the features the options act on (and look-alikes), plus unparseable strings, under defaults / all single and pairwise option deviations / uniform samples of the 2^9 x 3 option cube (thorough: the whole cube on a panel): host labels only deleted if whole and irrelevant, non-default port kept, path changed by at most trailing slash / index page / AMP marker as the options allow, query items only dropped if irrelevant with order kept unless sorting, fragment rule per strip_fragment, unparseable input returned unchanged; each case also compares the 10 single-option flips so that an option changes only its own component.",
    note="Trusted base: vlib/urlref.py, vlib/lists.py (frozen copies of the documented irrelevant keys / labels / index pages / AMP markers); ural.infer_redirection for the redirection-resolved input (C15).",
    design="§4 C05"),
  "C17": dict(
-   technique="generator-knows-the-answer property-based testing: documents built from element lists (exhaustive <=2/3 elements + Hypothesis), differential str vs bytes, reference filter pipeline for links",
+   technique="generator-knows-the-answer property-based testing: documents built from element lists (exhaustive <=2/3 elements + Hypothesis), differential str vs bytes, reference filter pipeline for links; plus a coverage-guided fuzzing campaign (atheris / libFuzzer, ural instrumented, the oracle inside the target): live in the thorough tier, its committed corpus replayed deterministically in the quick tier",
    text="Every document of <=2 elements over a ~110-element pool (anchors in three quoting styles with attributes, ASCII / non-ASCII separators, look-alike script tags, entities, every href kind) and random documents up to 8 elements; urls_from_html(str) == urls_from_html(utf-8 bytes) == the generator's expected href list; links_from_html compared as a list with a reference pipeline and checked for the stated post-conditions under all 8 option sets x 5 base URLs.",
    note="Trusted base: the document renderer (HTML whitespace = space/tab/LF/FF/CR); stdlib html.unescape and urljoin; ural's is_url / canonicalize_url inside the reference pipeline (covered by C16 / C01-C02).",
    design="§4 C17"),
  "C19": dict(
-   technique="bounded-exhaustive enumeration of route paths per platform + Hypothesis arbitrary token strings; totality with exception bucketing, validator checks and round trip through the generated canonical URL",
+   technique="bounded-exhaustive enumeration of route paths per platform + Hypothesis arbitrary token strings; totality with exception bucketing, validator checks and round trip through the generated canonical URL; plus a coverage-guided fuzzing campaign (atheris / libFuzzer, ural instrumented, the oracle inside the target): live in the thorough tier, its committed corpus replayed deterministically in the quick tier",
    text="Per platform every path of 0-3 segments over the full route vocabulary and 4 (quick) / 4-5 (thorough) over a reduced one, crossed with hosts, query panels, fragment routing, trailing slash and options; well-formed seed URLs; arbitrary strings through every public function of the six modules. Any exception other than the documented TypeError of convert_* is a violation bucketed by innermost ural frame; record ids must satisfy the module's validators; parse(record.url) == record, parse(normalize_youtube_url(u)) == parse(u), normalize idempotent.",
    note="Open known findings (route words as handles, unquoted record fields, stdlib-unparseable strings) are excused only for their own relation/trigger; see known_findings.json.",
    design="§4 C19"),
  "C18": dict(
-   technique="exhaustive enumeration over the bundled domain lists x look-alike host variants x decoys x four input forms against a reference membership predicate; Hypothesis random hosts; pairwise invariance cases",
+   technique="exhaustive enumeration over the bundled domain lists x look-alike host variants x decoys x four input forms against a reference membership predicate; Hypothesis random hosts; pairwise invariance cases; plus a coverage-guided fuzzing campaign (atheris / libFuzzer, ural instrumented, the oracle inside the target): live in the thorough tier, its committed corpus replayed deterministically in the quick tier",
    text="Every shortener / should-resolve / YouTube domain and the four pattern-based sites, in 10 host variants (exact, upper, subdomains, glued labels, foreign suffix, dot replaced, ...), with homepage/non-homepage paths and decoys naming site domains in userinfo/path/query/fragment, evaluated in the http(s), scheme-less, '//' and SplitResult forms; is_shortened_url => should_resolve; invariance of is_homepage/could_be_html (path only) and has_special_host/get_hostname (host only). Exhaustive over the lists within the stated variants.",
    note="Trusted base: vlib/urlref.split for the host; the bundled lists as loaded at run time for YouTube/shorteners (a change to the data is followed, a change to the matching logic is not); frozen documented domains for the pattern sites and should_resolve extras.",
    design="§4 C18"),
  "C16": dict(
-   technique="metamorphic testing over the 16 option configurations (all strict->relaxed edges) and validity-predicate testing of urls_from_text over exhaustively enumerated and random token texts",
+   technique="metamorphic testing over the 16 option configurations (all strict->relaxed edges) and validity-predicate testing of urls_from_text over exhaustively enumerated and random token texts; plus a coverage-guided fuzzing campaign (atheris / libFuzzer, ural instrumented, the oracle inside the target): live in the thorough tier, its committed corpus replayed deterministically in the quick tier",
    text="is_url evaluated under all 16 configurations on grammar URLs and a near-miss panel: every strict->relaxed edge, whitespace invariance, TLD rule against the bundled TLD set; urls_from_text on every text of <=2/3 tokens over a 63-token alphabet (URLs, complete/truncated markdown links, ASCII/typographic punctuation) and <=3/4 tokens over a reduced one, plus random texts: no exception, non-empty stripped substrings in order, protocol present, accepted by is_url.",
    note="Trusted base: harness copy of the protocol notion; vlib/urlref.split for the host; ural.tld_data.TLDS as the TLD set. Exceptions are bucketed by innermost ural frame.",
    design="§4 C16"),
  "C15": dict(
-   technique="grammar-based enumeration + Hypothesis recursive nesting; totality/termination, existential target re-derivation and fixed-point laws",
+   technique="grammar-based enumeration + Hypothesis recursive nesting; totality/termination, existential target re-derivation and fixed-point laws; plus a coverage-guided fuzzing campaign (atheris / libFuzzer, ural instrumented, the oracle inside the target): live in the thorough tier, its committed corpus replayed deterministically in the quick tier",
    text="Every (position x key x target x encoding level) combination of a redirect grammar incl. keys in host/userinfo position, relative, self-referential and nested targets, AMP/Marfeel/youtube panels, random nestings and arbitrary strings; RecursionError/alarm = violation; single-step result must be the input or derivable from a key=value / cache tail of the input; recursive result == limit of single steps and is a fixed point.",
    note="Trusted base: harness-owned key list and cache pattern; stdlib unquote/urljoin for the existential re-derivation. Termination is evidence on generated inputs, not a proof of boundedness.",
    design="§4 C15"),
  "C20": dict(
-   technique="algebraic-law property-based testing (Hypothesis + exhaustive panels) and reference decoding of built URLs",
+   technique="algebraic-law property-based testing (Hypothesis + exhaustive panels) and reference decoding of built URLs; plus a coverage-guided fuzzing campaign (atheris / libFuzzer, ural instrumented, the oracle inside the target): live in the thorough tier, its committed corpus replayed deterministically in the quick tier",
    text="Protocol laws (idempotence, prefix, strip-invariance, force == ensure o strip) over grammar URLs, near-protocol strings and random alphabetic protocols; format_url/URLFormatter results re-parsed and decoded against the retained arguments, junction, fragment and '?' rules; add_query_argument items/fragment preservation and read-back; pathsplit laws.",
    note="Trusted base: harness copy of the documented protocol regex; vlib/urlref.dec. Stacked-protocol inputs excluded (law unsatisfiable there).",
    design="§4 C20"),
  "C11": dict(
    technique="model-based testing: exhaustive short store-histories + Hypothesis histories against a dict/longest-prefix model; variant-equality law",
    text="Every history of <=2/3 stores (URL, serialized-LRU, stem-list and item forms mixed) over a 20-URL universe for the four trie classes x suffix_aware, with 40 queries after the last store; random histories with the variants' own options checked after every step; whenever the variant function maps a stored URL and a query to the same string the query must hit. Exhaustive within bounds.",
-   note="Trusted base: dict keyed by the class's public stem function minus 'p:' stems; linear longest-prefix search.",
+   note="Trusted base: dict keyed by the reference stems (vlib/lruref.py) of the URL for LRUTrie and of the variant function's string result for the variant tries, minus 'p:' stems; linear longest-prefix search.",
    design="§4 C11"),
  "C12": dict(
-   technique="round-trip property-based testing: URL grammar (Hypothesis) + exhaustive shape panel, raw-component comparison by a reference splitter",
+   technique="round-trip property-based testing: URL grammar (Hypothesis) + exhaustive shape panel, raw-component comparison by a reference splitter; plus a coverage-guided fuzzing campaign (atheris / libFuzzer, ural instrumented, the oracle inside the target): live in the thorough tier, its committed corpus replayed deterministically in the quick tier",
    text="Round trip url -> LRU/stems -> url compared component-wise as raw strings by an independent RFC 3986 splitter, re-conversion, serialisation inverses and terminator; 107k-shape exhaustive panel (scheme forms x userinfo forms x special hosts x ports x paths x tails x suffix_aware) and random grammar URLs with every token class.",
    note="Trusted base: vlib/urlref.split. Empty password/query/fragment == absent.",
    design="§4 C12"),
@@ -90,12 +90,12 @@ CHECKS = {
    note="Trusted base: vlib/urlref.py (RFC 3986 regex splitter, cross-checked against urllib.parse.urlsplit on every input; single-pass byte decoder; stdlib punycode codec). Leniencies listed in evidence.assumptions.",
    design="§4 C01"),
  "C02": dict(
-   technique="metamorphic property-based testing: spelling transformations equivalent by construction, idempotence and mode round trips, string equality",
+   technique="metamorphic property-based testing: spelling transformations equivalent by construction, idempotence and mode round trips, string equality; plus a coverage-guided fuzzing campaign (atheris / libFuzzer, ural instrumented, the oracle inside the target): live in the thorough tier, its committed corpus replayed deterministically in the quick tier",
    text="Generated pairs (u, T(u)) with T a composition of spelling transformations from a harness-owned catalogue; idempotence and the four quoted/unquoted round trips on grammar URLs and on an exhaustive token sweep. Exploration.",
    note="Trusted base: the transformation catalogue vlib/transforms.py (each respelling is guarded to decode to the same bytes).",
    design="§4 C02"),
  "C14": dict(
-   technique="bounded-exhaustive enumeration of token sequences + Hypothesis long strings against a reference byte decoder",
+   technique="bounded-exhaustive enumeration of token sequences + Hypothesis long strings against a reference byte decoder; plus a coverage-guided fuzzing campaign (atheris / libFuzzer, ural instrumented, the oracle inside the target): live in the thorough tier, its committed corpus replayed deterministically in the quick tier",
    text="Every string of <=3/4 tokens over a 40-token alphabet and <=2/3 tokens over the full ~110-token alphabet, plus random strings up to 40 tokens; decoded-bytes equality, delimiter/control/space counts, idempotence, structural check of safely_quote and upper_quoted. Exhaustive within bounds.",
    note="Trusted base: vlib/urlref.dec/lex (single-pass decoder; malformed '%' is a literal '%').",
    design="§4 C14"),
